@@ -3,7 +3,7 @@
    definitions at Qops on states captured from the implementation. *)
 From Coq Require Import Reals List Arith Lia Lra.
 From TLV Require Import Base.Shape Base.PyList Base.Tensor Base.Ops Base.RSum Model.Descent
-  Proofs.DescentProofs Proofs.DescentProofsHals Proofs.DescentProofsLink Proofs.DescentProofsOrth Proofs.DescentProofsNorm Proofs.DescentProofsNN Proofs.DescentProofsReg Proofs.DescentProofsTucker Proofs.DescentProofsCmtf Proofs.DescentProofsTkReg Proofs.DescentProofsTR.
+  Proofs.DescentProofs Proofs.DescentProofsHals Proofs.DescentProofsLink Proofs.DescentProofsOrth Proofs.DescentProofsNorm Proofs.DescentProofsNN Proofs.DescentProofsReg Proofs.DescentProofsTucker Proofs.DescentProofsCmtf Proofs.DescentProofsTkReg Proofs.DescentProofsTR Proofs.DescentProofsUnfold.
 Import ListNotations.
 Open Scope R_scope.
 
@@ -259,6 +259,28 @@ Theorem C07_hooi_tucker_block_descent_partial : forall (X : tensor R) (rs : list
   tk_hooi_obj Rops X rs (set_nth k Unew Us) <= tk_hooi_obj Rops X rs Us.
 Proof. exact hooi_tucker_block_descent_partial. Qed.
 Print Assumptions C07_hooi_tucker_block_descent_partial.
+
+(* the mode-k unfolding behind a HOOI block: as a function of factor k the squared norm of the core is ||W' Y_k||_F^2, Y_k being the
+   mode-k unfolding of X x_{j<>k} U_j' (the matrix partial_tucker hands to the SVD), for every order / mode / ranks ... *)
+Theorem C07_core_norm_unfolding : forall (X : tensor R) (rs : list nat) (Us : list (list (list R))) (k : nat),
+  (k < length (shape X))%nat -> length rs = length (shape X) -> (k < length Us)%nat ->
+  forall W : list (list R),
+  tk_core_norm2 Rops X rs (set_nth k W Us)
+  = frob2 (nth k rs 0%nat) (prod (set_nth k 1%nat rs)) (mmul (nth k (shape X) 0%nat) (mT (mget Rops W)) (unfold_k X rs Us k)).
+Proof. exact core_norm_unfolding. Qed.
+Print Assumptions C07_core_norm_unfolding.
+
+(* ... so the HOOI block does not increase the Tucker objective ||X - core x U||^2, the ONLY hypothesis left being Ky Fan's maximum
+   principle for that unfolding matrix (the leading left singular vectors maximise ||W' Y_k||_F over orthonormal W) *)
+Theorem C07_hooi_unfolding_block_descent_partial : forall (X : tensor R) (rs : list nat) (Us : list (list (list R))) (k : nat) (Unew : list (list R)),
+  (k < length (shape X))%nat -> length rs = length (shape X) -> (k < length Us)%nat ->
+  orth_all (shape X) rs Us -> orth_all (shape X) rs (set_nth k Unew Us) ->
+  (forall W : fmat, orthonormal (nth k (shape X) 0%nat) (nth k rs 0%nat) W ->
+     frob2 (nth k rs 0%nat) (prod (set_nth k 1%nat rs)) (mmul (nth k (shape X) 0%nat) (mT W) (unfold_k X rs Us k))
+     <= frob2 (nth k rs 0%nat) (prod (set_nth k 1%nat rs)) (mmul (nth k (shape X) 0%nat) (mT (mget Rops Unew)) (unfold_k X rs Us k))) ->
+  tk_hooi_obj Rops X rs (set_nth k Unew Us) <= tk_hooi_obj Rops X rs Us.
+Proof. exact hooi_unfolding_block_descent_partial. Qed.
+Print Assumptions C07_hooi_unfolding_block_descent_partial.
 
 (* coupled block of coupled_matrix_tensor_3d_factorization (every order of X): a factor of the coupled mode satisfying the normal
    equations  A (w (.) Hadamard of Grams (.) w + V'V) = MTTKRP + Y V  of the stacked least-squares problem minimises
